@@ -1050,11 +1050,13 @@ impl ParserState {
             for (tidx, &tok) in tokens.iter().enumerate() {
                 let state = &mut recog.state;
                 if trie.eos_tokens().contains(&tok) {
+                    let saved_parser_state = state.save_state();
                     if applied_idx == state.bytes.len() && state.is_accepting_inner() {
                         return tidx + 1;
-                    } else {
-                        return tidx;
                     }
+                    // Not an end of sequence here; the grammar may still name this token
+                    // explicitly (<|eos|>, <[id]>, a range), which consume_token() accepts.
+                    state.restore_state(saved_parser_state);
                 }
 
                 if applied_idx >= state.bytes.len() {
